@@ -62,9 +62,10 @@ def _read_coordinates(lit: LineIterator, result: dict[str]) -> tuple[NDArray[int
     if coordinates is None:
         coordinates = np.zeros((natom, 3), float)
     for i in range(natom):
-        words = next(lit).split()
-        numbers[i] = int(float(words[1]))
-        coordinates[i] = np.array([float(elem) for elem in words[2:5]]) * angstrom
+        # Fixed columns, FORMAT(1X,A10,F5.1,3F15.10): fields touch when a coordinate is <= -100 angstrom.
+        line = next(lit)
+        numbers[i] = int(float(line[11:16]))
+        coordinates[i] = np.array([float(line[16 + 15 * j : 31 + 15 * j]) for j in range(3)]) * angstrom
     return numbers, coordinates
 
 
